@@ -367,6 +367,18 @@ class C05(Prop):
             k = rng.choice([1, 2, 3, 4, 6, 8, 12])
             srcs.append(b"".join(rng.choice(self.WORDS if rng.random() < 0.7 else self.ALPHA) for _ in range(k)))
         lines = ["C05:%d\txtext\t%s" % (i, hx(s)) for i, s in enumerate(srcs)]
+        # text written directly after a directive statement that has no body (a component use without slots,
+        # in template files): it must come out where it stands, like any other text
+        k = 0
+        for pre in ["", "A", "{{ 1 }}"]:
+            for use in ["@component('~c')", "@component('~c', {a: 1})"]:
+                for ws in [" ", "\n", "\t ", "  \n  ", "", " \r\n"]:
+                    for nxt in ["{{ 2 }}", "@if(true)x@end", "", "B", "{{-- c --}}", "@component('~c')", "\\{{", "@each(i in [1])y@end"]:
+                        page = pre + use + ws + nxt
+                        files = [("tpl/pg.tw", "file", page), ("tpl/components/c.tw", "file", "[C]")]
+                        ops = [op_new("tpl", ".tw"), op_string("pg"), op_evalstr(page.replace("@component('~c', {a: 1})", "[C]").replace("@component('~c')", "[C]"))]
+                        lines.append(tree_case("C05:t%d" % k, files, ops, ["ok:0", "eq:1:2", "nopanic"]))
+                        k += 1
         return lines, {"exhaustive": False, "distribution": distribution(srcs),
                        "exhaustive_part": "all strings over 14 symbols up to length %d, alone and spliced" % maxlen}
 
@@ -1313,8 +1325,7 @@ class C07(Prop):
     explanation = ("Theorems: loader lemmas on the model (each use receives its own slot bodies: apply_component is a "
                    "function of that use's slots only). Correspondence: loader + evaluator model = implementation. "
                    "Oracle: inlining equality and the three load-time error cases.")
-    assumptions = ["argument names do not collide with visible variables of another type (the evaluator ignores that binding error)",
-                   "slots are declared at the top level of the component file"]
+    assumptions = ["slots are declared at the top level of the component file"]
 
     def comp_src(self, rng):
         return rng.choice([
@@ -1328,6 +1339,11 @@ class C07(Prop):
         args = {"kind": rng.choice(["'k%d'" % idx, "name", "'q'", "label", "label + kind"]),
                 "label": rng.choice(["'L%d'" % idx, "name", "user.name", "kind", "kind + '!'"]),
                 "big": rng.choice(["true", "false", "n > %d" % idx, "big", "!big"])}
+        if rng.random() < 0.08:
+            # the name is visible with another type (n is an integer, flag a boolean) or reserved: binding it must not be
+            # skipped silently - the inlined page fails on the assignment, so must the component use
+            k, v = rng.choice([("n", "'s%d'" % idx), ("flag", "%d" % idx), ("name", "%d" % (idx + 1)), ("loop", "1")])
+            args[k] = v
         slots = {}
         if "@slot|" in csrc or "@slot]" in csrc or "@slot)" in csrc or csrc.count("@slot") > csrc.count("@slot('"):
             if rng.random() < 0.8:
@@ -1340,6 +1356,8 @@ class C07(Prop):
         rng.shuffle(order)
         for nm, body in order:
             use += rng.choice(["", " ", "\n"]) + ("@slot" if nm == "" else "@slot('%s')" % nm) + body + "@end"
+        if order:
+            use += rng.choice(["", " ", "\n"]) + "@end"      # the component's own @end closes its slot list
         inl = csrc
         for nm in ("head", "foot"):
             inl = inl.replace("@slot('%s')" % nm, slots.get(nm, ""))
@@ -1360,28 +1378,33 @@ class C07(Prop):
                 use, ui = self.use(rng, csrc, u)
                 w = rng.random()
                 pre = rng.choice(["<p>", "A", "x{{ n }}"])
+                # text after the use stays where it is written: inside the block, once per pass
+                tail = rng.choice(["", "", "T%d" % u, ";{{ n }}", " t "])
                 if w < 0.5:
                     page += [pre, use, "|"]; inl += [pre, ui, "|"]
+                elif w < 0.65:
+                    page += [pre, "@if(flag)", use, tail, "@end|"]; inl += [pre, "@if(flag)", ui, tail, "@end|"]
                 elif w < 0.75:
-                    page += [pre, "@if(flag)", use, "@end|"]; inl += [pre, "@if(flag)", ui, "@end|"]
+                    page += [pre, "@if(big)", use, tail, "@else", "E", "@end|"]; inl += [pre, "@if(big)", ui, tail, "@else", "E", "@end|"]
                 else:
-                    page += [pre, "@each(it in items){{ it }}", use, "@end|"]; inl += [pre, "@each(it in items){{ it }}", ui, "@end|"]
+                    page += [pre, "@each(it in items){{ it }}", use, tail, "@end|"]; inl += [pre, "@each(it in items){{ it }}", ui, tail, "@end|"]
             files = [("tpl/page.tw", "file", "".join(page)), ("tpl/components/card.tw", "file", csrc)]
             ops = [op_new("tpl", ".tw"), op_string("page", TREE_DATA), op_evalstr("".join(inl), TREE_DATA)]
-            lines.append(tree_case("C07:%d" % i, files, ops, ["ok:0", "eq:1:2", "nopanic"]))
+            # a use whose argument cannot be bound fails both renders with the same message (paths differ between the APIs)
+            lines.append(tree_case("C07:%d" % i, files, ops, ["ok:0", "agree:1:2", "nopanic"]))
             if i % 10 == 0:   # the same uses inside a layout insert
                 files2 = [("tpl/page.tw", "file", "@use('~m')@insert('b')" + "".join(page) + "@end"), ("tpl/components/card.tw", "file", csrc),
                           ("tpl/layouts/m.tw", "file", "<L>@reserve('b')</L>")]
                 ops2 = [op_new("tpl", ".tw"), op_string("page", TREE_DATA), op_evalstr("<L>" + "".join(inl) + "</L>", TREE_DATA)]
-                lines.append(tree_case("C07:l%d" % i, files2, ops2, ["ok:0", "eq:1:2", "nopanic"]))
+                lines.append(tree_case("C07:l%d" % i, files2, ops2, ["ok:0", "agree:1:2", "nopanic"]))
         for i in range({"quick": 30, "thorough": 300, "search": 60}[tier]):
             k = i % 3
             csrc = "<c>@slot('head')|@slot</c>"
             if k == 0:
-                page = "a@component('~card')@slot('nosuch')x@end b"
+                page = "a@component('~card')@slot('nosuch')x@end@end b"
                 cons = ["err:0", "msgsub:0:" + hx("card"), "nopanic"]
             elif k == 1:
-                page = "a@component('~card')@slot('head')x@end@slot('head')y@end b"
+                page = "a@component('~card')@slot('head')x@end@slot('head')y@end@end b"
                 cons = ["err:0", "msgsub:0:" + hx("card"), "nopanic"]
             else:
                 page = "a\n@component('~gone') b"
@@ -1539,7 +1562,7 @@ class C14(Prop):
                 files = [("tpl/pg.tw", "file", page), ("tpl/layouts/m.tw", "file", "L@reserve('a')")]
                 ops = [op_new("tpl", ".tw")] * reps
             elif k == 4:
-                page = "@component('~c')@slot('p')1@end@slot('q')2@end@slot('p')3@end@slot('q')4@end"
+                page = "@component('~c')@slot('p')1@end@slot('q')2@end@slot('p')3@end@slot('q')4@end@end"
                 files = [("tpl/pg.tw", "file", page), ("tpl/components/c.tw", "file", "@slot('p')@slot('q')")]
                 ops = [op_new("tpl", ".tw")] * reps
             elif k == 5:
@@ -1587,7 +1610,7 @@ class C16(Prop):
 
     FILES = [("tpl/home.tw", "file", "@use('~main')@insert('t', name)@insert('b')<b>{{ n + 1 }}</b>@end"),
              ("tpl/layouts/main.tw", "file", "<t>@reserve('t')</t>@reserve('b')"),
-             ("tpl/cards.tw", "file", "@each(i in items)@component('~card', {v: i})@slot s{{ i }}@end@end"),
+             ("tpl/cards.tw", "file", "@each(i in items)@component('~card', {v: i})@slot s{{ i }}@end@end;@end"),
              ("tpl/components/card.tw", "file", "[{{ v }}@slot]"),
              ("tpl/bad.tw", "file", "partial {{ n }}\n{{ zz }}"),
              ("tpl/bad2.tw", "file", "{{ n.nofunc() }}"),
@@ -1850,7 +1873,7 @@ class C18(Prop):
                 cons += ["err:%d" % k]
             lines.append(tree_case("C18:%d" % i, files, ops, cons))
         # fault enumeration on valid trees
-        base = [("tpl/pg.tw", "@use('~m')@insert('t', 1)@component('~c', {a: 2})@slot body@end"), ("tpl/layouts/m.tw", "<l>@reserve('t')</l>"),
+        base = [("tpl/pg.tw", "@use('~m')@insert('t', 1)@component('~c', {a: 2})@slot body@end@end"), ("tpl/layouts/m.tw", "<l>@reserve('t')</l>"),
                 ("tpl/components/c.tw", "[{{ a }}@slot]"), ("tpl/plain.tw", "@if(true)ok@else no@end{{ 1 + 2 }}")]
         j = 0
         # a component referenced only from a layout, and a layout referenced only through a nested page
